@@ -303,8 +303,8 @@ class SpatialM6(SpatialVector):
         # v = obj.vw;
         # # vcross = [ skew(w) skew(v); zeros(3,3) skew(w) ]
         
-        v = self.A
-        vcross = np.array([
+        def vcross(v):
+            return np.array([
                             [ 0,    -v[5],  v[4],   0,     -v[2],   v[1]  ],
                             [ v[5],  0,    -v[3],   v[2],   0,     -v[0]  ],
                             [-v[4],  v[3],  0,     -v[1],   v[0],   0     ],
@@ -312,10 +312,11 @@ class SpatialM6(SpatialVector):
                             [ 0,     0,     0,      v[5],   0,    -v[3]   ],
                             [ 0,     0,     0,     -v[4],   v[3],   0     ]
                         ])
+        # binop applies the operation value by value (1xM, Mx1, MxM)
         if isinstance(other, SpatialM6):
-            return SpatialAcceleration(vcross @ other.A)  # x operator (crm)
+            return SpatialAcceleration(self.binop(other, lambda v, x: vcross(v) @ x))  # x operator (crm)
         elif isinstance(other, SpatialF6):
-            return SpatialForce(-vcross.T @ other.A)      # x* operator (crf)
+            return SpatialForce(self.binop(other, lambda v, x: -vcross(v).T @ x))      # x* operator (crf)
         else:
             raise TypeError('type mismatch')
         
